@@ -276,7 +276,7 @@ Definition chunk_step (p : pst) (r : bytes) : outcome :=
 Definition body_step (p : pst) (r : bytes) : outcome :=
   let rem := (clen p - Z.of_nat (length (body p)))%Z in
   if nil_b r then Wait
-  else if Z.leb rem 0 then Wait                        (* unreachable: see Proofs *)
+  else if Z.leb rem 0 then Wait                        (* dead on reachable states: Proofs/HttpInv.v *)
   else if Z.ltb (Z.of_nat (length r)) rem then Next (set_body p (body p ++ r)) []
   else lift (finish (set_body p (body p ++ firstn (Z.to_nat rem) r))) (skipn (Z.to_nat rem) r).
 
